@@ -583,3 +583,26 @@ pub fn run_cli_simple(bin: &Path, src: &[u8]) -> Result<CliOutcome, MachineryErr
     let _ = std::fs::remove_dir_all(&d);
     r
 }
+
+/// Run one script through the unmodified CLI with the script stored under the relative
+/// path `rel` (directories created as needed) in a scratch directory.
+pub fn run_cli_at(bin: &Path, src: &[u8], rel: &str) -> Result<CliOutcome, MachineryError> {
+    let d = scratch_dir();
+    let full = d.join(rel);
+    if let Some(parent) = full.parent() {
+        std::fs::create_dir_all(parent).map_err(|e| MachineryError(e.to_string()))?;
+    }
+    std::fs::write(&full, src).map_err(|e| MachineryError(e.to_string()))?;
+    let env = default_env();
+    let r = run_cli(CliRun {
+        bin,
+        arg: rel,
+        cwd: &d,
+        env: &env,
+        stdin: StdinMode::Null,
+        to_files: None,
+        timeout: Duration::from_secs(6),
+    });
+    let _ = std::fs::remove_dir_all(&d);
+    r
+}
